@@ -533,4 +533,101 @@ static int ref_chunk_size_line(const ref_u8 *p, size_t n, unsigned long long *si
 	*size = v;
 	return over ? 2 : 1;
 }
+/* ---- chunked body (RFC 9112 7.1) ------------------------------------------------------
+ * chunked-body = *chunk last-chunk trailer-section CRLF
+ * chunk        = chunk-size [ chunk-ext ] CRLF chunk-data CRLF
+ * last-chunk   = 1*("0") [ chunk-ext ] CRLF
+ * Decodes the prefix of a stream up to and including the last-chunk line (the
+ * trailer section is a header section, see ref_header_section).
+ * lenient = 0: the grammar exactly (CRLF line ends, well-formed extensions).
+ * lenient = 1: the widest reading a recipient may adopt: a bare LF ends a line
+ *              (RFC 9112 2.2), anything after BWS ";" is an ignorable extension.
+ * reject_reason tells why a stream is not a chunked body. */
+#define REF_C_DONE   1
+#define REF_C_MORE   2
+#define REF_C_REJECT 3
+#define REF_CR_NONE        0
+#define REF_CR_SIZE_LINE   1  /* chunk-size line malformed */
+#define REF_CR_AFTER_DATA  2  /* chunk-data not followed by CRLF */
+#define REF_CR_TOO_LARGE   3
+#ifndef REF_MAXSTREAM
+#define REF_MAXSTREAM 64
+#endif
+#ifndef REF_MAXCHUNKS
+#define REF_MAXCHUNKS 8
+#endif
+struct ref_chunked {
+	int status, reject_reason;
+	int saw_ext;             /* some chunk-size line carried an extension */
+	size_t consumed;         /* at DONE: bytes up to and including the last-chunk line */
+	size_t body_len;         /* octets of all complete chunks */
+	ref_u8 body[REF_MAXSTREAM];
+};
+static int ref_chunk_size_line_lenient(const ref_u8 *p, size_t n, unsigned long long *size, int *has_ext)
+{
+	unsigned long long v = 0;
+	size_t i = 0, k;
+	int over = 0;
+	*has_ext = 0; *size = 0;
+	for (k = 0; k < REF_MAXSTREAM && i < n && ref_is_hexdig(p[i]); k++) {
+		unsigned d = ref_is_digit(p[i]) ? (unsigned)(p[i] - '0') : (unsigned)(ref_lower(p[i]) - 'a' + 10);
+		if (v > 0x7fffffffffffffffULL / 16 || (v == 0x7fffffffffffffffULL / 16 && d > 0x7fffffffffffffffULL % 16))
+			over = 1;
+		else
+			v = v * 16 + d;
+		i++;
+	}
+	if (i == 0)
+		return 0;
+	for (k = 0; k < REF_MAXSTREAM && i < n && ref_is_ows(p[i]); k++) i++;
+	if (i < n) {
+		if (p[i] != ';')
+			return 0;
+		*has_ext = 1;
+	}
+	*size = v;
+	return over ? 2 : 1;
+}
+static void ref_chunked_decode(const ref_u8 *p, size_t n, int lenient, struct ref_chunked *c)
+{
+	size_t pos = 0, ci, i;
+	c->status = REF_C_MORE; c->reject_reason = REF_CR_NONE; c->saw_ext = 0; c->consumed = 0; c->body_len = 0;
+	for (ci = 0; ci < REF_MAXCHUNKS; ci++) {
+		size_t lf = n, le;
+		unsigned long long size;
+		int ext = 0, ok;
+		for (i = pos; i < REF_MAXSTREAM && i < n; i++)
+			if (p[i] == '\n') { lf = i; break; }
+		if (lf == n)
+			return; /* MORE */
+		le = lf;
+		if (le > pos && p[le - 1] == '\r')
+			le--;
+		else if (!lenient) { c->status = REF_C_REJECT; c->reject_reason = REF_CR_SIZE_LINE; return; }
+		ok = lenient ? ref_chunk_size_line_lenient(p + pos, le - pos, &size, &ext)
+			     : ref_chunk_size_line(p + pos, le - pos, &size, &ext);
+		if (ok == 0) { c->status = REF_C_REJECT; c->reject_reason = REF_CR_SIZE_LINE; return; }
+		if (ok == 2) { c->status = REF_C_REJECT; c->reject_reason = REF_CR_TOO_LARGE; return; }
+		if (ext) c->saw_ext = 1;
+		pos = lf + 1;
+		if (size == 0) { c->status = REF_C_DONE; c->consumed = pos; return; }
+		if (size > n - pos)
+			return; /* MORE: chunk-data incomplete */
+		/* chunk-data complete (delivered as soon as it is complete); CRLF must follow */
+		for (i = 0; i < REF_MAXSTREAM && i < size; i++) c->body[c->body_len + i] = p[pos + i];
+		c->body_len += size;
+		if (pos + size == n)
+			return; /* MORE: terminator not there yet */
+		if (p[pos + size] == '\r') {
+			if (pos + size + 1 == n)
+				return; /* MORE */
+			if (p[pos + size + 1] != '\n') { c->status = REF_C_REJECT; c->reject_reason = REF_CR_AFTER_DATA; return; }
+			pos += size + 2;
+		} else if (lenient && p[pos + size] == '\n') {
+			pos += size + 1;
+		} else {
+			c->status = REF_C_REJECT; c->reject_reason = REF_CR_AFTER_DATA; return;
+		}
+	}
+}
 #endif
